@@ -108,6 +108,7 @@ TNext ==
         \/ Is("RecvActThree") /\ RecvActThree
         \/ Is("AlterAct") /\ AlterAct(T.kind)
         \/ Is("OldActOne") /\ OldActOne
+        \/ Is("FragmentAct") /\ FragmentAct(T.cuts)
         \/ Is("Write") /\ Write(T.m, T.size, T.v, T.h)
         \/ Is("Flush") /\ Flush(T.m, T.k)
         \/ Is("Read") /\ (Read(T.d) \/ ReadAfterFailure(T.d))
@@ -131,6 +132,8 @@ ConformConn == (Live /\ IsConn) => /\ Last.nn = clast.n
                                    /\ (Last.a = "CRead" /\ Last.h # "" => Last.h = rbuf[Last.m].h)
 \* ReadMessage returned a payload of the length the model says
 ConformSize == (Live /\ Last.a = "Read" /\ last.err = "") => Last.size = last.dsz
+\* the responder learned the initiator's static key (Conn.RemotePub of the accepted connection)
+ConformRemoteKey == (Live /\ Last.a = "RecvActThree" /\ last.err = "") => Last.rpk = 1
 \* Flush's return value: plaintext bytes written by this call
 ConformFlush == (Live /\ Last.a = "Flush") => Last.nn = last.nn
 \* len(nextHeaderSend), len(nextBodySend) of both machines
